@@ -159,6 +159,55 @@ Section Model.
     | [] => c
     | (s, kvs) :: t => final_cfg (store c s kvs) t
     end.
+
+  (* ---- histories of calls: UpdateFrom, UpdateFromConfigUpdate, the `changed` results, Config.Err ---- *)
+  Variable veqb : V -> V -> bool.         (* SafeParamsEqual on field values *)
+
+  (* UpdateFrom(rawData, source)  |  UpdateFromConfigUpdate(msg): sourceToRawConfig is REPLACED by the message's
+     per-source raw config (empty values are NOT dropped on this path), then resolve() *)
+  Inductive upd := UFrom (s : N) (kvs : list (K * R)) | UAll (c : cfg).
+  Definition apply_upd (c : cfg) (u : upd) : cfg :=
+    match u with UFrom s kvs => store c s kvs | UAll c' => c' end.
+
+  Definition add_key (k : K) (l : list K) : list K := if existsb (keqb k) l then l else k :: l.
+  Fixpoint insert_key (k : K) (l : list K) : list K :=
+    match l with
+    | [] => [k]
+    | h :: t => if kleb k h then k :: h :: t else h :: insert_key k t
+    end.
+  Definition sort_keys (l : list K) : list K := fold_right insert_key [] l.
+
+  (* resolve()'s changedFields: the fields whose value differs (SafeParamsEqual) between the Config before the call
+     and after it; only fields some source has set (now or before) can differ.  Sorted by name. *)
+  Definition changed_names (prev cur : rst) : list K :=
+    let ns := fold_right add_key [] (map fst (r_vals prev) ++ map fst (r_vals cur)) in
+    sort_keys (filter (fun n => match known (lower n) with
+                                | Some m => negb (veqb (effective prev m) (effective cur m))
+                                | None => false
+                                end) ns).
+
+  Record call := mk_call {
+    k_err : bool;                      (* the call returned an error *)
+    k_cerr : bool;                     (* Config.Err != nil after the call: set by a fatal resolve, never cleared *)
+    k_changed : option (list K);       (* changedFields; None when this call or the previous one failed (the fields
+                                          are then in a partially-updated state the model does not track) *)
+    k_res : option rst
+  }.
+  Definition res_err (r : option rst) : bool := match r with None => true | Some _ => false end.
+
+  Fixpoint run_calls (fixed sorted : bool) (c : cfg) (prev : option rst) (cerr : bool) (us : list upd) : list call :=
+    match us with
+    | [] => []
+    | u :: t =>
+        let c' := apply_upd c u in
+        let r := resolve fixed sorted c' in
+        let err := res_err r in
+        let ch := match prev, r with Some p, Some st => Some (changed_names p st) | _, _ => None end in
+        mk_call err (cerr || err) ch r :: run_calls fixed sorted c' r (cerr || err) t
+    end.
+  (* a fresh Config (config.New()): no raw config, the defaults, Err = nil *)
+  Definition run_history (fixed sorted : bool) (us : list upd) : list call :=
+    run_calls fixed sorted [] (Some rst0) false us.
 End Model.
 
 (* ---------------------------------------------------------------------------------------------------------
